@@ -639,8 +639,13 @@ func variantsOf(ctx, dim, plan string) []string {
 	return out
 }
 
-// allVariants lists every variant context any plan can produce (self-test).
+// allVariants lists every variant context the plans of this tier can produce (self-test): the
+// reduced product contains the one-at-a-time variants, the full product contains both.
 func allVariants() []string {
+	plan := "full"
+	if quickMenus {
+		plan = "reduced"
+	}
 	seen := map[string]bool{}
 	var out []string
 	bases := make([]string, 0, len(variantSpecs))
@@ -651,13 +656,56 @@ func allVariants() []string {
 	for _, b := range bases {
 		spec := variantSpecs[b]
 		for _, d := range append([]string{""}, spec.dims...) {
-			for _, v := range variantsOf(b, d, "full") {
+			for _, v := range variantsOf(b, d, plan) {
 				if !seen[v] {
 					seen[v] = true
 					out = append(out, v)
 				}
 			}
 		}
+	}
+	return out
+}
+
+// refKindInfo describes the kind dimension for the evidence file.
+func refKindInfo() map[string]any {
+	var kinds []string
+	for _, k := range refKinds {
+		n := k.name
+		if !k.object {
+			n += " (no attributes: crash / located-error oracle only)"
+		}
+		kinds = append(kinds, n)
+	}
+	menus := map[string]any{}
+	for base, spec := range variantSpecs {
+		m := map[string][]string{}
+		for _, d := range spec.dims {
+			m[d] = spec.kinds[d]
+		}
+		menus[base] = m
+	}
+	return map[string]any{
+		"dimensions":             "p = method payload, r = method result, e = type of error a, t = the type the hole (Required / view attribute list) belongs to, v = the result type a View(name) selects from",
+		"kinds_p_r_e":            kinds,
+		"reduced_kinds":          reducedKinds,
+		"menus_per_context":      menus,
+		"scaffold_variants":      len(allVariants()),
+		"variant_name":           "base@dim=kind,... (dimensions left out have the kind of the base scaffold)",
+		"control_programs":       "level 1: the dangling name replaced by each existing name (attributes a, b; view / scheme / error a)",
+		"signature_context":      "ctx=<base> when the base scaffold fails the same way, ctx=<base> into=<dim>=<kind> when the kind of the type referred into alone decides, else ctx=<base> env=<variant suffix>",
+		"templates_by_dimension": templateDimCounts(),
+	}
+}
+
+func templateDimCounts() map[string]int {
+	out := map[string]int{}
+	for _, t := range danglingTemplates() {
+		d := templateDim(t.id, t.ctx)
+		if d == "" {
+			d = "none (scheme / error name)"
+		}
+		out[d]++
 	}
 	return out
 }
